@@ -35,12 +35,13 @@ const KEEP: &[&str] = &[
     "America/St_Johns", "Africa/Monrovia", "Pacific/Kwajalein", "Asia/Gaza", "Pacific/Chatham", "Asia/Kathmandu",
     "Africa/Cairo", "Etc/UTC", "America/Havana", "Asia/Beirut", "America/Santiago", "Asia/Amman", "Europe/Amsterdam",
     "America/Asuncion", "Australia/Sydney", "America/Scoresbysund", "Europe/Moscow", "Asia/Tokyo",
+    "Pacific/Guam", "Antarctica/Casey",
 ];
 
 fn zones(a: &Args, rng: &mut Rng, all_system: bool) -> Vec<ZoneSrc> {
     let mut all = tzcorpus::dedup(tzcorpus::system());
     let mut out: Vec<ZoneSrc> = Vec::new();
-    let want = if a.quick() && !all_system { 44 } else { 10_000 };
+    let want = if a.quick() && !all_system { 46 } else { 10_000 };
     let mut rest = Vec::new();
     for z in all.drain(..) {
         if KEEP.contains(&z.name.as_str()) {
@@ -393,6 +394,53 @@ fn c11_span(rng: &mut Rng, time_only: bool) -> Span {
     mkspan(u, rng.chance(1, 2)).unwrap_or_default()
 }
 
+/// Pairs of instants on the two sides of a transition that sets the clock back: (after, before) with
+/// after = T + x, before = T - y, x and y below the set-back, so that the later instant shows the
+/// earlier clock time (and, when the set-back crosses midnight, the earlier civil date).
+/// The offsets are read from jiff only to shape the inputs; nothing here judges a result.
+fn fold_pairs(a: &Args, az: &AZone, tz: &TimeZone, rng: &mut Rng, max: usize) -> Vec<(Timestamp, Timestamp)> {
+    let mut v = Vec::new();
+    let mut plain = 0;
+    let pts = crate::tzd::change_points(a, az, rng);
+    for &(t, _) in pts.iter().rev() {
+        let tn = t as i128 * 1_000_000_000;
+        let (Some(t0), Some(t1)) = (mkts(tn - 1), mkts(tn)) else { continue };
+        let d = (tz.to_offset(t0).seconds() - tz.to_offset(t1).seconds()) as i128 * 1_000_000_000;
+        if d <= 0 {
+            continue;
+        }
+        // set-backs whose repeated clock times include midnight are always taken, `max` of the others
+        let (c0, c1) = (tz.to_datetime(t0), tz.to_datetime(t1));
+        let (Some(e0), Some(e1)) = (mkts(tn - d), mkts(tn + d - 1)) else { continue };
+        let over_midnight = c1.date() < c0.date() || tz.to_datetime(e0).date() < c0.date() || c1.date() < tz.to_datetime(e1).date();
+        if !over_midnight {
+            plain += 1;
+            if plain > max {
+                continue;
+            }
+        }
+        for x in [0i128, 1, d / 3, d - 1] {
+            for y in [1i128, 16_034_678_188i128.min(d - 1), d / 2, d - 1] {
+                if let (Some(ta), Some(tb)) = (mkts(tn + x), mkts(tn - y)) {
+                    v.push((ta, tb));
+                }
+            }
+            // both after the transition, the first one a repeated clock time
+            for w in [146_270_261_772i128.min(d / 2), d / 4] {
+                if x >= w {
+                    if let (Some(ta), Some(tb)) = (mkts(tn + x), mkts(tn + x - w)) {
+                        v.push((ta, tb));
+                    }
+                }
+            }
+        }
+        if v.len() > 4000 {
+            break;
+        }
+    }
+    v
+}
+
 fn c11_for_ref(out: &mut Out, rng: &mut Rng, r: &Ref, n: usize, cls: &str) {
     let time_only = matches!(r, Ref::None);
     let max_unit = match r {
@@ -656,6 +704,12 @@ pub fn run_zoned(a: &Args, which: &str) {
                         }
                     }
                 }
+                for (ta, tb) in fold_pairs(a, az, tz, &mut rng, if quick { 3 } else { 20 }) {
+                    for ui in [6usize, 9, 5] {
+                        out.emit(z_until(tz, ta, tb, ui, "fold-pair"));
+                        out.emit(z_until(tz, tb, ta, ui, "fold-pair"));
+                    }
+                }
             }
             "c09z" => {
                 // only zones the global database knows under this name (the re-parse looks the name up)
@@ -739,6 +793,20 @@ pub fn run_zoned(a: &Args, which: &str) {
                                 }
                             }
                         }
+                    }
+                }
+                // a time-only span that crosses a set-back of the clock: reference and end show clock times
+                // (and sometimes civil dates) ordered against the instants
+                for (ta, tb) in fold_pairs(a, az, tz, &mut rng, if quick { 2 } else { 12 }) {
+                    let ns = (tb.as_nanosecond() - ta.as_nanosecond()) as i64;
+                    for (r, n) in [(ta, ns), (tb, -ns)] {
+                        let zr = Ref::Z(Zoned::new(r, tz.clone()));
+                        let Some(s) = mkspan([0, 0, 0, 0, 0, 0, 0, 0, 0, n.abs()], n < 0) else { continue };
+                        out.emit(sp_round(&zr, s, 0, 9, 1, 3, "fold-pair"));
+                        out.emit(sp_round(&zr, s, 5, 6, 1, (rng.next() % 9) as usize, "fold-pair"));
+                        out.emit(sp_total(&zr, s, 6, "fold-pair"));
+                        out.emit(sp_total(&zr, s, 9, "fold-pair"));
+                        out.emit(sp_dur(&zr, s, "fold-pair"));
                     }
                 }
             }
